@@ -15,7 +15,7 @@ static std::string show_vec(const std::vector<std::string>& v) {
   return s + "]";
 }
 
-VF_SECTION(concurrent_pairs, 16, 16, 300) {
+static std::vector<pp::Call> make_calls() {
   std::vector<pp::Call> calls;
   auto add = [&](const char* name, const char* group, std::function<std::string()> f) { calls.push_back({name, group, pp::guarded(f)}); };
   add("toupper(\"aBc-z\")", "toupper", [] { return toupper(std::string("aBc-z")); });
@@ -38,7 +38,19 @@ VF_SECTION(concurrent_pairs, 16, 16, 300) {
   add("skip_whitespace(\"  a\", 0)", "skip_whitespace", [] { return std::to_string(skip_whitespace(std::string("  a"), 0)); });
   add("skip_word(\"ab  cd\", 0)", "skip_word", [] { return std::to_string(skip_word(std::string("ab  cd"), 0)); });
   add("escape_quotes(\"a\\\"b\")", "escape_quotes", [] { return escape_quotes(std::string("a\"b")); });
+  return calls;
+}
+
+VF_SECTION(concurrent_pairs, 16, 16, 300) {
+  std::vector<pp::Call> calls = make_calls();
   pp::run_pairs(r, calls, r.thorough() ? 400 : 150, r.thorough() ? 150 : 0);
   r.bound = "every unordered pair (and every call with itself) of 20 calls of the C08 string functions run concurrently: every schedule with <= 2 preemptions for same-function pairs whose calls have <= 150 (thorough 400) scheduling points (thorough: also cross pairs <= 150), <= 1 preemption otherwise; basic-block granularity of Strings.cc and the templates instantiated in the harness TU";
+}
+
+// First calls: every same-function pair (thorough: every pair) with each schedule in a freshly forked process.
+VF_SECTION(concurrent_cold, 16, 16, 600) {
+  std::vector<pp::Call> calls = make_calls();
+  pp::run_pairs_cold(r, calls, r.thorough());
+  r.bound = "first calls: every same-function pair of the calls above and every call with itself (thorough: every pair), each schedule in a freshly forked process that has never called the library: every schedule with <= 1 preemption at basic-block granularity";
 }
 VF_MAIN()
